@@ -178,11 +178,12 @@ class MinGenSet():
                 var_type="integer"
             )
 
+        # pi_vars[(i, j)] = x_vars[(i, j)] * genset_vars[i] can be as large as max_multiplicity * total
         self.pi_vars = self.solver.add_variables(
             self.x_indexes, 
             name_prefix="pi", 
             lb=0, 
-            ub=self.total, 
+            ub=self.total * self.max_multiplicity, 
             var_type="integer" if self.weight_type == int else "continuous"
         )
 
@@ -221,6 +222,7 @@ class MinGenSet():
                             lb=0,
                             ub=self.total,
                             name=f"pi_i={i}_j={j}",
+                            integer_ub=self.max_multiplicity,
                         )
 
             # Sum of pi_vars[(i, j)] for all i is self.numbers[j]
